@@ -910,7 +910,7 @@ class Engine:
     def _call_function_body(self, path, fref, args, kwargs):
         fdef = fref.fdef or self.facts.fdef(fref.fact)
         w = fref.fact.get("wrapper") if fref.fact else None
-        if w and not getattr(fref, "_unwrapped", False):
+        if w and w.get("source") and not getattr(fref, "_unwrapped", False):
             # execute the decorator's wrapper, which calls the real function via its closure
             wdef = _parse_cached(self, w["source"])
             inner = FuncRef(fref.fact, fref.closure, fref.defcls)
@@ -1123,6 +1123,18 @@ class Engine:
             return self.setattr(path, o, t.attr, v)
         if isinstance(t, pyast.Subscript):
             o = self.eval(path, frame, t.value)
+            if isinstance(t.slice, pyast.Slice):
+                # slice assignment on a list of concrete length with concrete bounds
+                if t.slice.step is not None or not (isinstance(o, ListObj) and o.is_concrete()):
+                    raise Unsupported("slice assignment on a symbolic sequence")
+                lo = self.eval(path, frame, t.slice.lower) if t.slice.lower is not None else None
+                hi = self.eval(path, frame, t.slice.upper) if t.slice.upper is not None else None
+                items = self.iter_concrete(path, v)
+                if items is None or not all(x is None or (isinstance(x, int) and not isinstance(x, bool)) for x in (lo, hi)):
+                    raise Unsupported("slice assignment with symbolic bounds or value")
+                self.own_check(path, o, "slice assignment")
+                o.content[lo:hi] = list(items)
+                return
             k = self.eval(path, frame, t.slice)
             return self.setitem(path, o, k, v)
         raise Unsupported(f"assignment target {type(t).__name__}")
@@ -1131,6 +1143,12 @@ class Engine:
         nstar = [i for i, e in enumerate(elts) if isinstance(e, pyast.Starred)]
         items = self.iter_concrete(path, v)
         if items is None:
+            if not nstar:
+                # a, b = <sequence of symbolic length>: ValueError unless it has exactly len(targets) elements
+                seq = self.symbolic_seq(path, v)
+                if not self.branch(path, z3.Length(seq) == len(elts)):
+                    self.throw(path, "ValueError", "wrong number of values to unpack")
+                return [self.from_pv(z3.simplify(seq[j]), path) for j in range(len(elts))]
             if len(nstar) == 1:
                 seq = self.symbolic_seq(path, v)
                 L = z3.Length(seq)
